@@ -93,11 +93,13 @@ def add_features_calculator(mod: fx.GraphModule, extra_rules: List[Callable] = [
             input_shape = n.all_input_nodes[0].meta['tensor_meta'].shape
             start_dim = try_get_args(n, mod, 1, 'start_dim', 0)
             end_dim = try_get_args(n, mod, 2, 'end_dim', -1)
-            assert start_dim != 0 and len(input_shape) - start_dim != 0, \
-                "Flattening the batch not supported"
+            # torch accepts negative dimensions and treats end_dim as inclusive
+            start_dim = start_dim % len(input_shape)
+            end_dim = end_dim % len(input_shape)
+            assert start_dim != 0, "Flattening the batch not supported"
             # if flatten includes the channels
-            if start_dim == 1 or len(input_shape) - start_dim == 1:
-                flattened_size = math.prod(input_shape[2:end_dim if end_dim != -1 else None])
+            if start_dim == 1:
+                flattened_size = math.prod(input_shape[2:end_dim + 1])
                 n.meta['features_calculator'] = FlattenFeaturesCalculator(ifc, int(flattened_size))
             else:
                 n.meta['features_calculator'] = ifc  # just propagate the features
@@ -193,11 +195,10 @@ def associate_input_features(mod: fx.GraphModule):
             n.meta['input_features_set_by'] = n.all_input_nodes
         elif prev.meta['flatten']:
             input_shape = prev.all_input_nodes[0].meta['tensor_meta'].shape
-            start_dim = try_get_args(prev, mod, 1, 'start_dim', 0)
-            assert start_dim != 0 and len(input_shape) - start_dim != 0, \
-                "Flattening the batch not supported"
+            start_dim = try_get_args(prev, mod, 1, 'start_dim', 0) % len(input_shape)
+            assert start_dim != 0, "Flattening the batch not supported"
             # if flatten includes the channels
-            if start_dim == 1 or len(input_shape) - start_dim == 1:
+            if start_dim == 1:
                 n.meta['input_features_set_by'] = prev
             else:
                 n.meta['input_features_set_by'] = prev.meta['input_features_set_by']
